@@ -111,8 +111,9 @@ Fixpoint check_cases (ks : list case) (idx : N) : list (N * N * N) :=
    11 '-' removal without effect            12 update_only removed the peer just created
    13 remove=true removed a peer            14 private-key change dropped a peer
    15 replace_peers dropped peers           16 peer created
-   17 replace_allowed_ips dropped prefixes  18 roundtrips compared *)
-Definition nstats : nat := 19.
+   17 replace_allowed_ips dropped prefixes  18 roundtrips compared
+   19 gets whose output could not be delivered (failing writer / client hang-up) *)
+Definition nstats : nat := 20.
 
 Fixpoint bump (l : list N) (i : nat) : list N :=
   match l, i with
@@ -185,6 +186,7 @@ Fixpoint stats_ops (e : env) (c : cfg) (ops : list op) (st : list N) : list N :=
       let '(c1, r) := step e c o in
       let st1 := match o with
                  | OSet ls => stats_set e c SDev ls (bump st (errno_slot r))
+                 | OGetFail | OHangup => bump st 19
                  | _ => bump st 5
                  end in
       stats_ops e c1 ops' st1
